@@ -95,8 +95,8 @@ def finders(ctx, P):
             n = re.escape(show(arg))
             info = r"m_blockfile_info\[%s\]" % n
             atoms = {"NONEMPTY": re.compile(info + r"\.nSize"),
-                     "ABOVE": re.compile(r"(\(unsigned int\))?bind1\(%s\) < %s\.nHeightLast" % (rng, info)),
-                     "BELOW": re.compile(r"%s\.nHeightFirst < (\(unsigned int\))?bind0\(%s\)" % (info, rng))}
+                     "ABOVE": re.compile(r"(\(unsigned int\))?(bind1\(%s\)|%s\.second) < %s\.nHeightLast" % (rng, rng, info)),
+                     "BELOW": re.compile(r"%s\.nHeightFirst < (\(unsigned int\))?(bind0\(%s\)|%s\.first)" % (info, rng, rng))}
             lp = _loop_of(f, s)
             if lp is None:
                 raise AnalysisBroken("%s: prune site outside a loop" % q)
@@ -120,8 +120,8 @@ def finders(ctx, P):
     n = re.escape(show(call_args(ps[0].expr)[0]))
     info = r"m_blockfile_info\[%s\]" % n
     rng = re.escape(show(sites(f, mcall_named("Chainstate::GetPruneRange"), P)[0].expr))
-    atoms = {"NONEMPTY": re.compile(info + r"\.nSize"), "ABOVE": re.compile(r"(\(unsigned int\))?bind1\(%s\) < %s\.nHeightLast" % (rng, info)),
-             "BELOW": re.compile(r"%s\.nHeightFirst < (\(unsigned int\))?bind0\(%s\)" % (info, rng)),
+    atoms = {"NONEMPTY": re.compile(info + r"\.nSize"), "ABOVE": re.compile(r"(\(unsigned int\))?(bind1\(%s\)|%s\.second) < %s\.nHeightLast" % (rng, rng, info)),
+             "BELOW": re.compile(r"%s\.nHeightFirst < (\(unsigned int\))?(bind0\(%s\)|%s\.first)" % (info, rng, rng)),
              "UNDER": lambda k_: k_ in under}
     # the stop test is the negation of the test that started the scan: `usage + buffer < target` (names are free)
     outer = [g for g in ps[0].guards if (g.line or 0) < lo and g.kind == "if"]
